@@ -5,11 +5,14 @@
     Spec/Grammar.v (for the code: of the grammar plus the four recorded deviation
     forms) — and completeness — every disambiguated syntax tree of the grammar
     (Spec/Prec.v, Spec/Disamb.v) is accepted with its abstract tree (for the
-    code: outside the one recorded deviation class of Spec/Disamb.v).
+    code: outside the one recorded deviation class of Spec/Disamb.v).  The two
+    meet for the reference parser: it accepts exactly the expressions that lex to
+    a disambiguated syntax tree, and returns that tree; and the code agrees
+    with it on every such expression outside the deviation class.
     Partial: the lexical level is proved form by form under C09 and compared by
     correspondence otherwise.  Statements only. *)
 From JP Require Import Base Value Lexer Parser Gen.Tables Spec.TableSpec Spec.Grammar Spec.Prec Spec.Disamb
-     Proofs.GrammarProof Proofs.ParseFuelProof Proofs.CompleteProof.
+     Proofs.GrammarProof Proofs.ParseFuelProof Proofs.CompleteProof Proofs.DisSoundProof Proofs.TableIso Proofs.AgreeProof.
 
 Theorem C03_table_order : table_order_ok gen_lbp gen_projection_stop = true.
 Proof. vm_compute. reflexivity. Qed.
@@ -121,6 +124,42 @@ Theorem C03_disambiguated_grammar_unambiguous : forall T STOP c1 c2, table_order
   flat c1 = flat c2 -> unoff (erase c1) = unoff (erase c2).
 Proof. exact disambiguated_grammar_unambiguous. Qed.
 Print Assumptions C03_disambiguated_grammar_unambiguous.
+
+(** The tree the reference parser returns is disambiguated (Spec/Disamb.v), not only
+    well formed and respecting the binding powers. *)
+Theorem C03_reference_tree_is_disambiguated : forall s t, ref_parse s = Ok t ->
+  exists tokens c, tokenize s = Ok tokens /\ map snd tokens = flat c ++ [TEof] /\ erase c = t /\ wf c /\
+                   prec (fun tk => spec_lbp (kind_of tk)) 0 c /\ dis (fun tk => spec_lbp (kind_of tk)) spec_stop false TEof c.
+Proof. exact ref_parse_sound_dis. Qed.
+Print Assumptions C03_reference_tree_is_disambiguated.
+
+(** Exactness: the reference parser — the sentence oracle of this property —
+    accepts an expression if and only if it lexes to the token sequence of a
+    well-formed, binding-power-respecting, disambiguated syntax tree of the grammar. *)
+Theorem C03_reference_parser_accepts_exactly_the_language : forall s,
+  (exists t, ref_parse s = Ok t) <->
+  (exists tokens c, tokenize s = Ok tokens /\ map snd tokens = flat c ++ [TEof] /\ wf c /\
+                    prec (fun tk => spec_lbp (kind_of tk)) 0 c /\ dis (fun tk => spec_lbp (kind_of tk)) spec_stop false TEof c).
+Proof. exact ref_parse_accepts_exactly. Qed.
+Print Assumptions C03_reference_parser_accepts_exactly_the_language.
+
+(** The code against the reference parser, for all strings: whatever the
+    reference parser accepts, through a tree without the recorded deviation
+    constituent, the code compiles to the same abstract tree (offsets aside).
+    The binding-power numbers read from the code enter only through their order. *)
+Theorem C03_code_agrees_with_reference_on_the_language : forall s t, ref_parse s = Ok t ->
+  exists tokens c, tokenize s = Ok tokens /\ map snd tokens = flat c ++ [TEof] /\ erase c = t /\ wf c /\
+    (nodotlist c -> exists t', parse s = Ok t' /\ unoff t' = unoff t).
+Proof. exact code_agrees_with_reference. Qed.
+Print Assumptions C03_code_agrees_with_reference_on_the_language.
+
+(** The conditions on trees depend on the table only through the documented order. *)
+Theorem C03_conditions_depend_on_the_order_only : forall T1 S1 T2 S2 c dp fol,
+  table_order_ok T1 S1 = true -> table_order_ok T2 S2 = true ->
+  prec (fun t => T1 (kind_of t)) 0 c -> dis (fun t => T1 (kind_of t)) S1 dp fol c ->
+  prec (fun t => T2 (kind_of t)) 0 c /\ dis (fun t => T2 (kind_of t)) S2 dp fol c.
+Proof. exact prec_dis_table_independent. Qed.
+Print Assumptions C03_conditions_depend_on_the_order_only.
 
 (** Non-vacuity: [a.b[0] || !c] and [*.[a, b] | f(&x, `1`)] as trees that meet every
     hypothesis of the completeness theorems (both tables); and a tree of the
